@@ -44,6 +44,10 @@ CHECKS['C19'] = (OTHER, 'symbolic execution of the real Panel.calc_kA/calc_cA (i
     'Bounded symbolic verification for all beta, gamma, aeromu, Mach>1, density, speed, geometry and the edge flags other than the restrained w flags on the flow edges: every entry of both triangles equals beta*int(w_A dw_B/dflow) - gamma*int(w_A w_B); cA = -aeromu*int(w_A w_B)*i; w-w positions only; Mach route = explicit route; flow-y = flow-x on the exchanged panel.',
     'Bounds per evidence; w restrained on the flow edges (hypothesis of the statement); tables = exact integrals (C10); bay route claimed under C13.',
     'DESIGN.md section 4 C19')
+CHECKS['C12'] = (OTHER, 'symbolic execution of the real PanelAssembly.get_k0_conn and calc_kt_kr over the de-Cythonised connection kernels (five kinds) vs squared-jump penalty-energy Hessian oracle on shared atoms; both panel orders, two-connection assemblies; z3 qfnra-nlsat; exact-rational replay',
+    'Bounded symbolic verification for all real geometry, interface positions, flags, laminates (18 ABD entries per panel), thicknesses: every entry of the assembled, symmetrised connection matrix equals the Hessian of kt/2 int|jump|^2 + kr/2 int(jump rotation)^2 with the constants of the panels actually joined; calc_kt_kr symmetric and homogeneous.',
+    'Bounds per evidence; panels share the interface length as the kernels assume; PSD / zero energy for continuous fields are corollaries.',
+    'DESIGN.md section 4 C12')
 NA = {
     'C15': 'eigenvalue monotonicity/convergence for pencils of size 48..768 is not a bounded first-order query any installed solver can decide; the algebraic ingredients (exact Hessians, exact tables, nestedness) are decided under C02-C04 and C10 (DESIGN.md section 5)',
 }
